@@ -3,6 +3,7 @@ package main
 // Evaluation of contract expressions to SMT terms.
 
 import (
+	"go/ast"
 	"fmt"
 	"go/constant"
 	"go/types"
@@ -252,7 +253,7 @@ func (env *specEnv) mapKey(k TV, ks string) string {
 	switch k.Sort {
 	case "Str":
 		return app("skey", k.T)
-	case "Int", "Bool":
+	case "Int", "Bool", "StrKey":
 		return k.T
 	}
 	name := "keyid_" + sanitize(k.Sort)
@@ -747,6 +748,30 @@ func (env *specEnv) evalCall(x *SCall) TV {
 			return TV{T: "true", Sort: "Bool"}
 		}
 		return TV{T: "false", Sort: "Bool"}
+	case "initial": // initial(x): the value the local variable x was given first (before any reassignment)
+		argn(1)
+		id, ok := x.Args[0].(*SIdent)
+		if !ok || env.fr == nil {
+			env.fail("initial needs the name of a local variable")
+		}
+		for _, b := range env.fr.fn.Blocks {
+			for _, in := range b.Instrs {
+				if dr, ok := in.(*ssa.DebugRef); ok && !dr.IsAddr {
+					if di, ok := dr.Expr.(*ast.Ident); ok && di.Name == id.Name {
+						if _, isConst := dr.X.(*ssa.Const); isConst {
+							continue
+						}
+						if fv, isVar := dr.Object().(*types.Var); isVar && fv.IsField() {
+							continue
+						}
+						if r, ok := env.fr.regs[dr.X]; ok {
+							return TV{T: r, Sort: env.u().sortOf(dr.X.Type()), Typ: dr.X.Type()}
+						}
+					}
+				}
+			}
+		}
+		env.fail("initial(%s): no such local variable in scope", id.Name)
 	case "addrof": // addrof(x): the address of the local variable x (a variable whose address is taken in the body)
 		argn(1)
 		id, ok := x.Args[0].(*SIdent)
